@@ -671,6 +671,10 @@ def rule_z8(ctx, facts):
 
 
 def run(ctx, facts):
+    ctx.rule("Z14", "an old bin is marked as forwarded only after both halves are stored in the new table (rule L3 of C01): a bin counts as "
+                    "migrated for everybody who meets the marker, so the marker must not run ahead of the migration", floor=2)
+    from .rules_c01 import rule_l3
+    rule_l3(ctx, facts, rule="Z14")
     ctx.rule("Z8", "an initiator's table was loaded after (or re-validated after) the size_ctl value its ticket CAS expects", floor=2)
     rule_z8(ctx, facts)
     ctx.rule("Z7", "stride claiming makes progress: CAS(transfer_index, fresh positive next_index -> something smaller); the index steps down by one", floor=4)
